@@ -20,6 +20,8 @@ Atom(s)        == T("atom", s, 0, 0, <<>>, <<>>)
 IntT(n)        == T("int", "", n, 0, <<>>, <<>>)
 (* exact numbers: value = n * 2^e ; s carries "", "inf", "-inf", "nan"      *)
 IntE(n, e)     == T("int", "", n, e, <<>>, <<>>)
+(* n * 2^e + 1 / - 1: the neighbours of a large power of two (comparisons only; arithmetic on them is "out") *)
+IntA(n, e, adj) == T("int", IF adj = 1 THEN "+1" ELSE "-1", n, e, <<>>, <<>>)
 Flt(n, e)      == T("flt", "", n, e, <<>>, <<>>)
 FltS(tag)      == T("flt", tag, 0, 0, <<>>, <<>>)
 Var(id, name)  == T("var", name, id, 0, <<>>, <<>>)
